@@ -290,8 +290,8 @@ def _cprio(run: Any, key: tuple, ex: Expect, out: dict) -> List[dict]:
     bad = []
     for nid, want in mg["cp"].items():
         a = mg["attrs"][nid]
-        if ex.selected is not None and (a["role"] != "main" or len(a["path"]) != 1 or a["path"][0][1] not in ex.selected):
-            continue
+        if ex.selected is not None and nid not in got:
+            continue   # not part of the executor's graph
         if nid in got and got[nid] != want:
             bad.append((nid, got[nid], want))
         elif nid not in got and ex.selected is None:
@@ -463,6 +463,12 @@ def _analyse_exec(run: Any, ea: ExecAnalysis, retire_probe: bool, aborted: bool,
             elif s == "dag-deact":
                 in_graph.add(nid)
                 expected_deact.add(nid)
+    if ex.debug_on and ex.selected is not None:
+        # debug nodes pulled into a sub-graph run take part in the scheduling decisions once they are known to run
+        for nid_ in {e[2] for _, e in ea.events if e[0] == "enter"}:
+            a_ = attrs.get(nid_)
+            if a_ is not None and a_["debug"] and nid_ not in in_graph:
+                in_graph.add(nid_)
     if ex.setup_only:
         in_graph = {n for n in in_graph if attrs[n]["setup"]}
         expected_exec &= in_graph
@@ -660,7 +666,10 @@ def _analyse_exec(run: Any, ea: ExecAnalysis, retire_probe: bool, aborted: bool,
     # ---- C07.d: with max_concurrency == 1 and a tie-free reference table the execution order is unique
     if mc == 1 and not failing and not aborted and op_ok:
         want = ref_order(in_graph, expected_exec, deps, cp)
-        got_order = [e[2] for _, e in ea.events if e[0] == "enter" and e[2] in attrs]
+        got_order = [e[2] for _, e in ea.events if e[0] == "enter" and e[2] in attrs and e[2] in expected_exec]
+        pulled = [e[2] for _, e in ea.events if e[0] == "enter" and e[2] in attrs and e[2] not in expected_exec]
+        if pulled:
+            want = None  # debug nodes pulled into the run compete for the single slot: the order is not asserted
         if want is not None and got_order != want:
             V.append(viol("order_mc1", f"execution order with max_concurrency=1 is {got_order}, reference (greedy by compound priority) {want}",
                           op=opkey, tok=tok, tags=sel_tag))
